@@ -51,10 +51,11 @@ CONSTANTS Kind,        \* "fixed" | "variable": record type of the source bucket
           SampleMod, SampleSalt,   \* which conjunctions of >= 2 comparisons are emitted for replay (all are checked)
           Phase5, Phase60,         \* minute of interval 0 modulo 5 / 60 (target grids of INSERT INTO)
           TgtClasses,              \* subset of 1..4: 1 same timeframe, 2 five times, 3 sixty times coarser, 4 variable 5x
-          SampleMod20              \* which C20 cases outside the always-emitted classes are emitted
+          SampleMod20,             \* which C20 cases outside the always-emitted classes are emitted
+          Rich                     \* TRUE: the full cross product of C20 cases (thorough tier)
 
-VARIABLES conj,   \* C19: sequence of atom numbers (a conjunction under construction)
-          q       \* C20: case number (0 in C19 behaviours)
+VARIABLES conj,   \* C19: sequence of atoms (a conjunction under construction)
+          q       \* C20: the case (0 in C19 behaviours)
 vars == <<conj, q>>
 
 AllDeviations == {"EpochLteExcludesBound", "EpochGteExcludesBound", "EpochSecondsRaw", "LooserBoundKept",
@@ -99,10 +100,12 @@ ValAtoms(c, lits) ==
 \* a seconds literal exists only for whole-second positions
 KindOK(a) == a.k \in EpochKinds(a.v \div 2) /\ (a.op = "btw" => a.k \in EpochKinds(a.w \div 2))
 Atoms == {a \in EpochAtoms : KindOK(a)} \cup ValAtoms("A", ALits) \cup ValAtoms("B", BLits) \cup ValAtoms("C", CLits)
-AtomSeq == SetToSeq(Atoms)
-NA == Len(AtomSeq)
-Atom(i) == AtomSeq[i]
-AtomsOf(cj) == [i \in 1..Len(cj) |-> Atom(cj[i])]
+AtomsOf(cj) == cj
+\* a number per atom, only used to pick the sample of cases that is emitted for replay
+ColNo(c) == CASE c = "Epoch" -> 1 [] c = "A" -> 2 [] c = "B" -> 3 [] c = "C" -> 4
+OpNo(o)  == CASE o = "<" -> 1 [] o = "<=" -> 2 [] o = ">" -> 3 [] o = ">=" -> 4 [] o = "=" -> 5 [] o = "btw" -> 6
+KindNo(k) == CASE k = "str" -> 1 [] k = "sec" -> 2 [] k = "ns" -> 3 [] k = "num" -> 4
+AtomKey(a) == ColNo(a.col) * 7 + OpNo(a.op) * 61 + KindNo(a.k) * 211 + a.v * 13 + a.w * 389
 
 (***************************************************************************)
 (* Declarative semantics (the property)                                    *)
@@ -263,7 +266,7 @@ DeclTarget(rows, cls) ==
 RECURSIVE WriteRows(_, _, _)
 WriteRows(m, rows, cls) == IF rows = <<>> THEN m
                            ELSE WriteRows([m EXCEPT ![TgtSlot(cls, RowIv(Head(rows)))] = Head(rows)], Tail(rows), cls)
-MaxSlot == 200
+MaxSlot == 8        \* intervals 0..7 of the source map to slots 0..7 at most
 ImplTarget(rows, cls) ==
   IF cls = 4 THEN [i \in 1..Len(rows) |-> [slot |-> TgtSlot(cls, RowIv(rows[i])), row |-> rows[i]]]
   ELSE LET m == WriteRows([s \in 0..MaxSlot |-> 0], rows, cls)
@@ -291,7 +294,7 @@ Guards(as, sel, lim) == {d \in Deviations : Guard(d, as, sel, lim)}
 (***************************************************************************)
 InitW == conj = <<>> /\ q = 0
 NextW == /\ Len(conj) < Depth
-         /\ \E i \in 1..NA : conj' = Append(conj, i)
+         /\ \E a \in Atoms : conj' = Append(conj, a)
          /\ UNCHANGED q
 SpecW == InitW /\ [][NextW]_vars
 
@@ -301,12 +304,20 @@ PureRefinesDecl == ImplRows(AtomsOf(conj), 0 - 1, {}) = DeclRows(AtomsOf(conj))
 DeviationsExplainAllW == (Guards(AtomsOf(conj), <<>>, 0 - 1) = {})
                             => ImplRows(AtomsOf(conj), 0 - 1, Deviations) = ImplRows(AtomsOf(conj), 0 - 1, {})
 
+\* the three statements above in one invariant (one evaluation of each answer per state; this is what the cfg uses)
+CheckW == LET as   == AtomsOf(conj)
+              pure == ImplRows(as, 0 - 1, {})
+              gs   == Guards(as, <<>>, 0 - 1)
+              dev  == ImplRows(as, 0 - 1, Deviations)
+          IN /\ pure = DeclRows(as)
+             /\ IF gs = {} THEN dev = pure ELSE ImplRows(as, 0 - 1, gs) = dev
+
 \* What the tree may answer instead of the property's answer, and why: for every answer that some subset of the
-\* exercised deviations produces, the smallest such subsets (their union).  The full set is the unchanged tree; the
-\* proper subsets are what remains after some of the listed defects have been repaired.
+\* exercised deviations produces, the smallest such subsets.  The full set is the unchanged tree; the proper subsets
+\* are what remains after some of the listed defects have been repaired.
 MinExpl(gs, Same(_)) == LET expl == {D \in SUBSET gs : Same(D)}
                             m == CHOOSE n \in 0..Cardinality(gs) : (\E D \in expl : Cardinality(D) = n) /\ \A D \in expl : Cardinality(D) >= n
-                        IN UNION {D \in expl : Cardinality(D) = m}
+                        IN {D \in expl : Cardinality(D) = m}
 Alts(gs, F(_), exp) == LET answers == {F(D) : D \in SUBSET gs} \ {exp}
                            Devs(r) == LET Same(D) == F(D) = r IN MinExpl(gs, Same)
                        IN {[ans |-> r, devs |-> Devs(r)] : r \in answers}
@@ -315,7 +326,7 @@ AltsW(as) == LET F(D) == ImplRows(as, 0 - 1, D) IN Alts(Guards(as, <<>>, 0 - 1),
 GuardsSufficeW == LET as == AtomsOf(conj) IN ImplRows(as, 0 - 1, Guards(as, <<>>, 0 - 1)) = ImplRows(as, 0 - 1, Deviations)
 
 SampledW == \/ Len(conj) = 1
-            \/ (Len(conj) >= 2 /\ (conj[1] * 131 + conj[2] * 31337 + (IF Len(conj) > 2 THEN conj[3] * 7 ELSE 0) + SampleSalt) % SampleMod = 0)
+            \/ (Len(conj) >= 2 /\ (AtomKey(conj[1]) * 131 + AtomKey(conj[2]) * 337 + (IF Len(conj) > 2 THEN AtomKey(conj[3]) * 7 ELSE 0) + SampleSalt) % SampleMod = 0)
 EmitW == (conj # <<>> /\ SampledW) =>
            LET as == AtomsOf(conj) IN
            PrintT(<<"CASE", ToJson([conj |-> as, expect |-> DeclRows(as), alts |-> AltsW(as)])>>)
@@ -330,33 +341,38 @@ FreshName == <<"F1", "F2", "F3", "F4">>
 AliasMarks(s) == {m \in [1..Len(s) -> {"", "F", "N"}] : \A i \in 1..Len(s) : s[i] = "Epoch" => m[i] # "N"}
 MkSel(s, m) == [i \in 1..Len(s) |-> [c |-> s[i], al |-> IF m[i] = "F" THEN FreshName[i] ELSE IF m[i] = "N" THEN NextCol(s[i]) ELSE ""]]
 DistinctOut(sel) == \A i, j \in 1..Len(sel) : i # j => DeclCols(sel)[i].n # DeclCols(sel)[j].n
-SelLists == {sel \in UNION {{MkSel(s, m) : m \in AliasMarks(s)} : s \in SelOrders} : DistinctOut(sel)}
+\* (the big sets take a dummy parameter so that TLC builds them only for the C20 runs that use them)
+SelLists(x) == {sel \in UNION {{MkSel(s, m) : m \in AliasMarks(s)} : s \in SelOrders} : DistinctOut(sel)}
 \* select lists usable as INSERT source: Epoch and at least one value column, no colliding alias, Epoch not renamed
-InsLists == {sel \in SelLists : /\ Len(sel) >= 2
-                                /\ \E i \in 1..Len(sel) : sel[i].c = "Epoch" /\ sel[i].al = ""
-                                /\ \A i \in 1..Len(sel) : sel[i].al \notin {"A", "B", "C"}}
+IsInsList(sel) == /\ Len(sel) >= 2
+                  /\ \E i \in 1..Len(sel) : sel[i].c = "Epoch" /\ sel[i].al = ""
+                  /\ \A i \in 1..Len(sel) : sel[i].al \notin {"A", "B", "C"}
 
 \* WHERE clauses of C20 cases: none or one comparison that exercises no C19 deviation
 WAtoms == {a \in Atoms : /\ a.k \in {"str", "num"}
                          /\ a.col \notin Unfiltered
                          /\ a.op \in {">", "<", "btw", "="}}
-WNos == {i \in 1..NA : Atom(i) \in WAtoms}
-\* a handful for the select-list cases, all of them for LIMIT and INSERT
-W1 == CHOOSE i \in WNos : Atom(i).col = "A" /\ Atom(i).op = ">" /\ \A j \in WNos : (Atom(j).col = "A" /\ Atom(j).op = ">") => Atom(i).v <= Atom(j).v
+\* all of them for LIMIT and INSERT over `*`, one for the select-list cases
+W1 == CHOOSE a \in WAtoms : a.col = "A" /\ a.op = ">" /\ \A b \in WAtoms : (b.col = "A" /\ b.op = ">") => a.v <= b.v
+WAll == {<<>>} \cup {<<a>> : a \in WAtoms}
+WOne == {<<>>, <<W1>>}
 
-Cases20 ==
-       {[star |-> FALSE, sel |-> s, lim |-> l, w |-> w, ins |-> 0] : s \in SelLists, l \in {0 - 1, 2}, w \in {0, W1}}
-  \cup {[star |-> TRUE, sel |-> <<>>, lim |-> l, w |-> w, ins |-> 0] : l \in (0 - 1)..(NR + 1), w \in {0} \cup WNos}
-  \cup {[star |-> TRUE, sel |-> <<>>, lim |-> l, w |-> w, ins |-> t] : l \in {0 - 1, 2}, w \in {0} \cup WNos, t \in TgtClasses}
-  \cup {[star |-> FALSE, sel |-> s, lim |-> l, w |-> w, ins |-> t] : s \in InsLists, l \in {0 - 1, 2}, w \in {0, W1}, t \in TgtClasses}
-CaseSeq == SetToSeq(Cases20)
-N20 == Len(CaseSeq)
-
-Init20 == conj = <<>> /\ q \in 1..N20
+\* Rich = FALSE: LIMIT / WHERE are combined with the short select lists only, INSERT uses the select lists of <= 3 items
+Cases20(x) ==
+  LET lists == SelLists(x)
+      short == {s \in lists : Len(s) <= 2}
+      insl  == {s \in lists : IsInsList(s) /\ (Rich \/ Len(s) <= 3)}
+  IN   {[star |-> FALSE, sel |-> s, lim |-> 0 - 1, w |-> <<>>, ins |-> 0] : s \in lists}
+  \cup {[star |-> FALSE, sel |-> s, lim |-> l, w |-> w, ins |-> 0] : s \in (IF Rich THEN lists ELSE short), l \in {0 - 1, 2}, w \in WOne}
+  \cup {[star |-> TRUE, sel |-> <<>>, lim |-> l, w |-> w, ins |-> 0] : l \in (0 - 1)..(NR + 1), w \in WAll}
+  \cup {[star |-> TRUE, sel |-> <<>>, lim |-> l, w |-> w, ins |-> t] : l \in {0 - 1, 2}, w \in WAll, t \in TgtClasses}
+  \cup {[star |-> FALSE, sel |-> s, lim |-> l, w |-> w, ins |-> t] :
+            s \in insl, l \in {0 - 1, 2}, w \in WOne, t \in TgtClasses}
+Init20 == conj = <<>> /\ q \in Cases20(0)
 Next20 == UNCHANGED vars
 Spec20 == Init20 /\ [][Next20]_vars
 
-WOf(cs) == IF cs.w = 0 THEN <<>> ELSE <<Atom(cs.w)>>
+WOf(cs) == cs.w
 StarCols == [i \in 1..4 |-> [n |-> <<"Epoch", "A", "B", "C">>[i], s |-> <<"Epoch", "A", "B", "C">>[i]]]
 Answer20(cs, devs, pure) ==
   LET rows == IF pure THEN DeclLimit(DeclRows(WOf(cs)), cs.lim) ELSE ImplRows(WOf(cs), cs.lim, devs)
@@ -366,21 +382,33 @@ Answer20(cs, devs, pure) ==
               ELSE IF pure THEN DeclTarget(rows, cs.ins) ELSE ImplTarget(rows, cs.ins)]
 
 \* E1 for C20: with no deviation the pipeline is the relational answer
-PureRefinesDecl20 == Answer20(CaseSeq[q], {}, FALSE) = Answer20(CaseSeq[q], {}, TRUE)
-DeviationsExplainAll20 == LET cs == CaseSeq[q] IN
+PureRefinesDecl20 == Answer20(q, {}, FALSE) = Answer20(q, {}, TRUE)
+DeviationsExplainAll20 == LET cs == q IN
                           (Guards(WOf(cs), cs.sel, cs.lim) = {}) => Answer20(cs, Deviations, FALSE) = Answer20(cs, {}, TRUE)
 \* the WHERE clauses used here stay clear of the C19 deviations
-WhereIsClean20 == LET cs == CaseSeq[q] IN ImplRows(WOf(cs), 0 - 1, Deviations) = DeclRows(WOf(cs))
+WhereIsClean20 == LET cs == q IN ImplRows(WOf(cs), 0 - 1, Deviations) = DeclRows(WOf(cs))
 
 Alts20(cs) == LET F(D) == Answer20(cs, D, FALSE) IN Alts(Guards(WOf(cs), cs.sel, cs.lim), F, Answer20(cs, {}, TRUE))
-GuardsSuffice20 == LET cs == CaseSeq[q] IN Answer20(cs, Guards(WOf(cs), cs.sel, cs.lim), FALSE) = Answer20(cs, Deviations, FALSE)
+GuardsSuffice20 == LET cs == q IN Answer20(cs, Guards(WOf(cs), cs.sel, cs.lim), FALSE) = Answer20(cs, Deviations, FALSE)
 
-Sampled20 == LET cs == CaseSeq[q] IN
-             \/ cs.star /\ cs.ins = 0                                     \* every LIMIT x WHERE case
-             \/ ~cs.star /\ cs.ins = 0 /\ cs.lim = 0 - 1 /\ cs.w = 0 /\ Len(cs.sel) <= 2   \* every short select list
-             \/ (q * 7919 + SampleSalt) % SampleMod20 = 0
+Check20 == LET cs   == q
+               decl == Answer20(cs, {}, TRUE)
+               gs   == Guards(WOf(cs), cs.sel, cs.lim)
+               dev  == Answer20(cs, Deviations, FALSE)
+           IN /\ Answer20(cs, {}, FALSE) = decl
+              /\ IF gs = {} THEN dev = decl ELSE Answer20(cs, gs, FALSE) = dev
+              /\ (cs.w # <<>> => ImplRows(WOf(cs), 0 - 1, Deviations) = DeclRows(WOf(cs)))
+
+AlNo(al) == CASE al = "" -> 0 [] al = "A" -> 1 [] al = "B" -> 2 [] al = "C" -> 3 [] OTHER -> 4
+RECURSIVE SelKey(_, _)
+SelKey(sel, i) == IF i > Len(sel) THEN 0 ELSE (ColNo(sel[i].c) * 5 + AlNo(sel[i].al)) + 23 * SelKey(sel, i + 1)
+CaseKey(cs) == SelKey(cs.sel, 1) * 3 + (cs.lim + 1) * 7919 + cs.ins * 104729 + (IF cs.w = <<>> THEN 0 ELSE AtomKey(cs.w[1]) * 31)
+Sampled20 == LET cs == q IN
+             \/ cs.star /\ cs.ins = 0 /\ cs.w \in WOne                      \* every LIMIT, with and without WHERE
+             \/ ~cs.star /\ cs.ins = 0 /\ cs.lim = 0 - 1 /\ cs.w = <<>> /\ Len(cs.sel) <= 2   \* every short select list
+             \/ (CaseKey(cs) + SampleSalt) % SampleMod20 = 0
 Emit20 == Sampled20 =>
-            LET cs == CaseSeq[q] IN
+            LET cs == q IN
             PrintT(<<"CASE", ToJson([star |-> cs.star, sel |-> cs.sel, lim |-> cs.lim, w |-> WOf(cs), ins |-> cs.ins,
                                      expect |-> Answer20(cs, {}, TRUE), alts |-> Alts20(cs)])>>)
 
